@@ -189,6 +189,12 @@ func (c *cluster) reactor(which string, tracker ktesting.ObjectTracker) ktesting
 			case fAlreadyExists:
 				return true, nil, kerrors.NewAlreadyExists(gr(a), rec.name)
 			case fNotFound:
+				// An API server never answers "not found" to the delete of an object that exists; the
+				// realistic way to see it is that an earlier (lost) attempt or somebody else already
+				// removed the object: the deletion is applied, the caller is told it was not there.
+				if a.GetVerb() == "delete" {
+					c.serve(tracker, base, a)
+				}
 				return true, nil, kerrors.NewNotFound(gr(a), rec.name)
 			case fLostResponse:
 				c.serve(tracker, base, a)
